@@ -29,3 +29,5 @@ import MicroHttp.Props.C04Limit
 #print axioms MicroHttp.C04.read_after_setLimit
 #print axioms MicroHttp.Tables.no_shared_state
 #print axioms MicroHttp.Tables.no_interior_mutability
+#print axioms MicroHttp.Tables.server_new
+#print axioms MicroHttp.Tables.server_new_from_fd
